@@ -808,7 +808,7 @@ def run(ctx, idx):
     ft_ = cfr_.find("store", lambda n: n.meta.get("attr") == A_.flag and _sa(n.ast, sn_) and isinstance(n.meta.get("value"), ast.Constant) and n.meta["value"].value is True)
     if not ft_:
         raise AnalysisError("C11.i: Command.run never sets the finished flag")
-    early_ = [f_ for f_ in ft_ if not cfr_.must_pass_through(cfr_.entry, f_, set(good_))]
+    early_ = [f_ for f_ in ft_ if not cfr_.must_pass_through(cfr_.entry, f_, set(good_)) and not K.success_flag_ok(cfr_, fr_, f_, good_)]
     ctx.ob("C11.i", "%s::failed-is-not-finished" % fr_.key, K.rel(fr_), (early_ or ft_)[0].line, not early_, "the finished flag is set only after execute's value was stored" if not early_ else
            "`%s = True` at line %d is reached on paths where execute raised: the failed command counts as finished (result None), so on the next run - or the next read of a dependent result - the fault is not raised again at its own line; its consumers are refused instead (ParameterNotValid at the line of THEIR argument)" % (A_.flag, early_[0].line))
     # ------------------------------------------------------------------ j
